@@ -21,6 +21,99 @@ type c10Meta struct {
 
 type c10Shared struct{ Legal bool }
 
+// c10Mixed: the two hooks of ONE method have independent shapes (static accept / reject only).
+type c10Mixed struct {
+	Pre, Post   int // index into c10Shapes; -1 = no such hook
+	Style, MErr int
+}
+
+// legal: 1 fits, 0 cannot fit, 2 either (not pinned down by the documentation); for shape 2 it depends on the method's error result
+var c10Shapes = []struct {
+	id, params, results string
+	legal               int
+}{
+	{"plain", "d *D, s *S", "", 1},
+	{"with-args", "d *D, s *S, n int, a AA", "", 1},
+	{"error", "d *D, s *S", "error", -1},
+	{"arg-count", "d *D, s *S, n int", "", 0},
+	{"arg-type", "d *D, s *S, n string, a AA", "", 0},
+	{"dst-type", "d *S, s *S", "", 0},
+	{"src-type", "d *D, s *D", "", 0},
+	{"arg-pointer-for-value", "d *D, s *S, n *int, a AA", "", 0},
+	{"arg-pointer-for-value-2", "d *D, s *S, n int, a *AA", "", 0},
+	{"two-results", "d *D, s *S", "(*D, error)", 0},
+	{"value-result", "d *D, s *S", "*D", 0},
+	{"func-variable", "", "", 2},
+}
+
+func c10ShapeDecl(name string, shape int) string {
+	sh := c10Shapes[shape]
+	if sh.id == "func-variable" {
+		return "var " + name + " = func(d *D, s *S) {}\n"
+	}
+	body := ""
+	switch sh.results {
+	case "error":
+		body = " return nil "
+	case "(*D, error)":
+		body = " return d, nil "
+	case "*D":
+		body = " return d "
+	}
+	res := sh.results
+	if res != "" {
+		res = " " + res
+	}
+	return "func " + name + "(" + sh.params + ")" + res + " {" + body + "}\n"
+}
+
+func c10ShapeLegal(shape, merr int) int {
+	if shape < 0 {
+		return 1
+	}
+	l := c10Shapes[shape].legal
+	if l == -1 {
+		return merr
+	}
+	return l
+}
+
+func familyC10Mixed() []*scen.Cell {
+	var cells []*scen.Cell
+	for pre := -1; pre < len(c10Shapes); pre++ {
+		for post := -1; post < len(c10Shapes); post++ {
+			if pre < 0 && post < 0 {
+				continue
+			}
+			for style := 0; style < 2; style++ {
+				for merr := 0; merr < 2; merr++ {
+					decls := "type AA struct{ A int }\n\ntype S struct {\n\tA int\n}\n\ntype D struct {\n\tA int\n}\n\n"
+					var notes []string
+					if style == 1 {
+						notes = append(notes, ":style arg")
+					}
+					if pre >= 0 {
+						decls += c10ShapeDecl("Pre", pre)
+						notes = append(notes, ":preprocess Pre")
+					}
+					if post >= 0 {
+						decls += c10ShapeDecl("Post", post)
+						notes = append(notes, ":postprocess Post")
+					}
+					sig := "Conv(*S, int, AA) *D"
+					if merr == 1 {
+						sig = "Conv(*S, int, AA) (*D, error)"
+					}
+					setup := scen.SetupFile(false, decls, nil, []scen.MethodDecl{{Notations: notes, Sig: sig}})
+					cells = append(cells, &scen.Cell{ID: fmt.Sprintf("c10mix_%d_%d_%d%d", pre+1, post+1, style, merr), Family: "C10-mixed-hooks", Files: map[string]string{"setup.go": setup},
+						Meta: c10Mixed{Pre: pre, Post: post, Style: style, MErr: merr}})
+				}
+			}
+		}
+	}
+	return cells
+}
+
 // legal is the reference for "hooks whose parameter or error shape cannot fit the method are rejected".
 func (m c10Meta) legal() bool {
 	if m.HErr == 1 && m.MErr == 0 {
@@ -141,7 +234,10 @@ func init() {
 				cells = append(cells, &scen.Cell{ID: fmt.Sprintf("c10shared_%d_%d", i, pos), Family: "C10-shared-hook", Files: map[string]string{"setup.go": setup}, Meta: c10Shared{Legal: i == 2}})
 			}
 		}
-		e.Rep.Rule("hook signature {destination by pointer/value} x {source by pointer/value} x {with/without error} x additional parameters {none, all, wrong count, wrong type} x {pre, post, both} x method shape style{return, arg} x source/destination pointer-ness x receiver x error result x additional arguments {0, 2}, " +
+		cells = append(cells, familyC10Mixed()...)
+		e.Rep.Rule("mixed shapes: :preprocess and :postprocess of ONE method drawn independently from {none, plain, with the additional arguments, error, wrong argument count, wrong argument type, wrong destination type, wrong source type, pointer parameter for a value argument (2 positions), results (T, error), result T, a func-typed variable} x style x error result: " +
+			"rejected iff one of the two cannot fit (a func-typed variable may go either way), and an accepted output type-checks; " +
+			"hook signature {destination by pointer/value} x {source by pointer/value} x {with/without error} x additional parameters {none, all, wrong count, wrong type} x {pre, post, both} x method shape style{return, arg} x source/destination pointer-ness x receiver x error result x additional arguments {0, 2}, " +
 			"plus imported hooks (exported, unexported, missing, unknown package); static: shapes that cannot fit the method (error-returning hook in a method without error result, additional-parameter count or type mismatch, unexported/missing imported hook) must be rejected, all others accepted; " +
 			"dynamic (reflect driver, instrumented hooks recording deep snapshots and pointer identities; a by-pointer preprocess hook scribbles a sentinel into every destination leaf): pre exactly once and first, seeing the destination as passed in / freshly zero and the function's own source; " +
 			"all copy effects after it (assigned leaves = source values, unassigned leaves = scribble); post exactly once and last, seeing the final values that are returned; pointer arguments are the function's own operands; additional arguments in declaration order; " +
@@ -179,6 +275,46 @@ func init() {
 				}
 				if sh.Legal && o.Res.Exit != 0 {
 					return []report.Finding{{Key: "C10|legal-rejected|shared-error-hook", What: clip(e.scrub(o.Res.Stderr, o.Dir), 300)}}
+				}
+				return nil
+			}
+			if mx, ok := o.Cell.Meta.(c10Mixed); ok {
+				lp, lq := c10ShapeLegal(mx.Pre, mx.MErr), c10ShapeLegal(mx.Post, mx.MErr)
+				name := func(i int) string {
+					if i < 0 {
+						return "none"
+					}
+					return c10Shapes[i].id
+				}
+				feat := fmt.Sprintf("pre=%s|post=%s|merr=%d", name(mx.Pre), name(mx.Post), mx.MErr)
+				t.Family("C10-mixed-hooks", o.Res.Exit == 0, lp == 0 || lq == 0)
+				switch {
+				case lp == 0 || lq == 0:
+					t.Outcome("mixed: must-reject")
+					if o.Res.Exit == 0 {
+						return []report.Finding{{Key: "C10|illegal-accepted|mixed|" + feat, What: "a method whose hook cannot fit was accepted [" + feat + "]"}}
+					}
+					if !strings.Contains(o.Res.Stderr, "setup.go:") {
+						return []report.Finding{{Key: "C10|reject-without-position|mixed", What: "rejected without a positioned message: " + clip(o.Res.Stderr, 200)}}
+					}
+				case lp == 1 && lq == 1:
+					t.Outcome("mixed: must-accept")
+					if o.Res.Exit != 0 {
+						return []report.Finding{{Key: "C10|legal-rejected|mixed|" + feat, What: "hooks that fit the method were rejected: " + clip(e.scrub(o.Res.Stderr, o.Dir), 300)}}
+					}
+				default:
+					t.Outcome("mixed: either")
+				}
+				if o.Res.Exit == 0 {
+					a := e.Analyze(o)
+					if errs := a.compileErrors(); len(errs) > 0 {
+						return []report.Finding{{Key: "C10|accepted-does-not-compile|mixed|" + feat, What: "accepted, but the hook call does not compile: " + errs[0].Msg}}
+					}
+					for site, sh := range map[string]int{"Pre(": mx.Pre, "Post(": mx.Post} {
+						if sh >= 0 && !strings.Contains(bodyOnly(o.Out), site) {
+							return []report.Finding{{Key: "C10|hook-call-missing|mixed|" + feat, What: "accepted, but the generated function does not call " + site + ")"}}
+						}
+					}
 				}
 				return nil
 			}
